@@ -215,6 +215,15 @@ def campaign(c):
     # those bytes at that width, for every selector
     TYPED = [(['-=u64:1'], (1).to_bytes(8, 'big')), (['-=u64:0'], bytes(8)), (['-=u8:1'], b'\x01'), (['-=u16:1'], b'\x00\x01'), (['-=u32:1'], b'\x00\x00\x00\x01'), (['-=ip4:1'], b'\x00\x00\x00\x01'),
              (['-=str:0000000000000001'], (1).to_bytes(8, 'big')), (['-=u64:1', '-=u8:2'], (1).to_bytes(8, 'big') + b'\x02'), (['-=u64:18446744073709551615'], b'\xff' * 8)]
+    PKT = bytes(range(60))
+    TYPED += [(['-=pkt:' + PKT.hex()], PKT), (['-=pkt:' + PKT.hex(), '-=u8:9'], PKT + b'\x09'), (['-=str:6162', '-=pkt:' + PKT[:14].hex(), '-=ip4:1'], b'ab' + PKT[:14] + b'\x00\x00\x00\x01')]
+    for targs, data in TYPED:
+        for w, fn in ((1, 'std::len_u8'), (2, 'std::len_be16'), (4, 'std::len_be32'), (8, 'std::len_be64')):
+            res, req = call_both(c, [[fn] + targs])
+            b = val_bytes(res[0])
+            if b is not None:
+                f = kv(parse(c, 'lenpfx:%d' % w, b))
+                expect(c, fn, f.get('body') == sh_hex(data) and f.get('rest') == '-', '%s over typed parts %s: the prefix does not count the bytes that follow' % (fn, [x[:24] for x in targs]), dict(req=req))
     for sel in list(range(256)) + [x for x in named16 if x > 255]:
         for targs, data in TYPED:
             for fn, kind, lead, fld in (('tls::extension', 'extension', ['-=u16:%d' % sel], ('ext', 'data')), ('tls::message', 'tlsrecord', ['content=u8:%d' % (sel % 256)], ('content', 'payload')),
